@@ -694,3 +694,6 @@ func JoinComputedMap() {
 	}
 	End(c, "C04/joinmapview", true)
 }
+
+// Vio reports a violation found by generated code itself (class, plain description).
+func Vio(prop string, c Case, class, desc string) { vio(prop, c, class, "%s", desc) }
